@@ -73,7 +73,7 @@ package originium
 // fingerprint this transaction read from the store. The transaction holds an open read mark
 // (or has finished reading), which is what keeps the clean-up mark at or below its readTs.
 //@ func (*originium.oracle).newCommitTs -> ts, conflict
-//@ props C07 C06
+//@ props C07 C06 C05
 //@ requires txn != nil && orcInv(o) && histInv(o) && txn.readTs < o.nextTs
 //@ requires !txn.doneRead && WmOpen[ref(o.readMark)][txn.readTs] > 0
 //@ requires o.nextTs < 18446744073709551615
@@ -217,7 +217,7 @@ package originium
 //@ ghost CommitWrites Int
 //@ func (*originium.Txn).Commit -> err
 //@ serves wait:mark
-//@ props C07 C08 C06 C04
+//@ props C07 C08 C06 C04 C05
 //@ after_call (*originium.oracle).newCommitTs#0: ghost CommitWrites = 0
 //@ before_call (*originium.DB).rawset#0: assert@C04 CommitWrites == 0
 //@ after_call (*originium.DB).rawset#0: ghost CommitWrites = CommitWrites + 1
@@ -233,6 +233,11 @@ package originium
 //@ ensures (!old(t.discarded) && len(t.pendingWrites) > 0 && err != ErrConflictTxn) ==> commitAdds(t, old(t.db.oracle.nextTs))
 //@ ensures (!old(t.discarded) && len(t.pendingWrites) > 0 && err != ErrConflictTxn) ==> commitOnly(t, old(t.db.oracle.nextTs))
 //@ ensures (!old(t.discarded) && len(t.pendingWrites) > 0 && err != ErrConflictTxn) ==> commitKeeps(t, old(t.db.oracle.nextTs))
+// C05 (snapshot stability): whatever Commit returns, the part of the store below its commit
+// timestamp - which is above the read timestamp of every transaction begun so far (readTs ==
+// nextTs - 1 at Begin, nextTs only grows) - is untouched: no entry appears, disappears or changes there.
+//@ ensures forall(Str(w), (wf(w) && ts(w) < old(t.db.oracle.nextTs)) ==> (ViewHas[w] == old(ViewHas)[w] && (ViewHas[w] ==> ViewEnt[w] == old(ViewEnt)[w])), trig(ViewHas[w]))
+//@ ensures t.db.oracle.nextTs >= old(t.db.oracle.nextTs)
 //@ loop 0:
 //@   invariant commitTs == old(t.db.oracle.nextTs) && commitTs <= 9223372036854775807 && orc == t.db.oracle && orc.commitMark != nil && orc.readMark != nil && t.db.oracle.readMark != nil
 //@   invariant !t.discarded && t.doneRead && txnWf(t) && writesInv(t) && HistLen == old(HistLen) + 1 && Hist[old(HistLen)].writesFp == t.writesFp && Hist[old(HistLen)].ts == commitTs
